@@ -78,7 +78,8 @@ NewCall(k, id, left, host, port, bt, cid) ==
 
 (* ------------------------------------------------------------------ *)
 (* Initial state for a pair of configurations                          *)
-(* cfg[e] = [rwnd, thr, acceptCap, dgCap, bindCap, retries]            *)
+(* cfg[e] = [rwnd, thr, acceptCap, dgCap, bindCap, retries, kaI, kaT]  *)
+(* kaI / kaT: effective keepalive interval / timeout in seconds, 0 = off *)
 (* ------------------------------------------------------------------ *)
 InitState(cfg) ==
   [cfg    |-> cfg,
@@ -104,6 +105,8 @@ InitState(cfg) ==
    enq    |-> [e \in E |-> 0],           \* ghost: messages ever accepted into outq[e]
    snt    |-> [e \in E |-> 0],           \* ghost: messages ever moved from outq[e] to the link
    flushTo |-> [e \in E |-> 0],          \* ghost: value of enq[e] when the multiplexor handle was dropped
+   now    |-> 0,                         \* virtual time (seconds); moved by the environment step Advance
+   ka     |-> [e \in E |-> [started |-> FALSE, next |-> 0, lastPong |-> 0]],   \* schedule_ping_task of endpoint e
    healthy |-> TRUE,                     \* ghost: no transport fault / adversary so far
    dgSent |-> [e \in E |-> <<>>],        \* ghost: datagrams accepted by send_datagram on e (g values)
    dgGot  |-> [e \in E |-> 0],           \* ghost: index in dgSent[Peer(e)] of the last datagram delivered to e's application
@@ -606,7 +609,9 @@ Process(s, e, m, inWd) ==
     [] m.op = "push"    -> ProcPush(s, e, m)
     [] m.op = "bind"    -> ProcBind(s, e, m, inWd)
     [] m.op = "dgram"   -> ProcDgram(s, e, m, inWd)
-    [] m.op \in {"ping", "pong"} -> s
+    (* the transport answers a Ping by itself (see AutoPong); only a Pong is a sign of life *)
+    [] m.op = "ping" -> s
+    [] m.op = "pong" -> [s EXCEPT !.ka[e].lastPong = s.now]
     (* nothing follows a Close frame (RFC 6455): the source of a real WebSocket ends after it *)
     [] m.op = "close"   -> IF inWd THEN [s EXCEPT !.src[e] = "ended"]
                            ELSE BeginWd([s EXCEPT !.src[e] = "ended"], e, FALSE, "ok")
@@ -639,13 +644,22 @@ Unblock(s, e) ==
 
 SrcHasMsg(s, e) == s.src[e] = "open" /\ s.wire[Peer(e)] # <<>>
 
+(* RFC 6455: the WebSocket layer answers a Ping with a Pong by itself (process_message: "the underlying WebSocket
+   implementation is expected to respond to Ping messages automatically"); the simulated transport does so at the
+   moment the Ping is handed to the task, provided its sending direction still works.  The Pong does not pass
+   through the task's outbound queue. *)
+AutoPong(s, e, m) ==
+  IF m.op = "ping" /\ s.sink[e] = "open"
+  THEN [s EXCEPT !.wire[e] = Append(@, MkMsg("pong")), !.obs.sent = Append(@, MkMsg("pong"))]
+  ELSE s
+
 (* take one message from the link and process it (main loop) *)
 RecvOne(s, e) ==
   LET m  == Head(s.wire[Peer(e)])
       s1 == [s EXCEPT !.wire[Peer(e)] = Tail(@), !.obs.rcv = m]
   IN CASE m.op = "eos" -> BeginWd([s1 EXCEPT !.src[e] = "ended"], e, FALSE, "ok")
        [] m.op = "err" -> BeginWd([s1 EXCEPT !.src[e] = "ended"], e, FALSE, "ws")
-       [] OTHER -> Process(s1, e, m, FALSE)
+       [] OTHER -> Process(AutoPong(s1, e, m), e, m, FALSE)
 
 (* move the head of the outbound queue to the link, counting Push frames for C03 *)
 PutOnWire(s, e, m) ==
@@ -658,6 +672,22 @@ PutOnWire(s, e, m) ==
 
 SendOne(s, e) ==
   PutOnWire([s EXCEPT !.outq[e] = Tail(@)], e, Head(s.outq[e]))
+
+(* schedule_ping_task, one poll: an interval timer of period kaI whose first tick is immediate (the timer is created
+   by the first poll of the task) and which skips missed ticks (MissedTickBehavior::Skip: the schedule stays aligned).
+   At a tick: more than kaT since the last Pong (or since the Multiplexor was created) ends the main loop with
+   KeepaliveTimeout, else a Ping is queued behind whatever is already in the outbound queue. *)
+KaDue(s, e) == IF s.ka[e].started THEN s.ka[e].next ELSE s.now
+KaEnabled(s, e) == s.cfg[e].kaI > 0 /\ s.now >= KaDue(s, e)
+KaStep(s, e) ==
+  LET c   == s.cfg[e]
+      due == KaDue(s, e)
+  IN IF ~KaEnabled(s, e) THEN s
+     ELSE LET nx == due + c.kaI * (((s.now - due) \div c.kaI) + 1)
+              s1 == [s EXCEPT !.ka[e].started = TRUE, !.ka[e].next = nx]
+          IN IF c.kaT > 0 /\ s.now - s.ka[e].lastPong > c.kaT
+             THEN BeginWd(s1, e, FALSE, "keepalive")
+             ELSE Out(s1, e, MkMsg("ping"))
 
 (* one drop notification *)
 DropOne(s, e) ==
@@ -690,6 +720,9 @@ Finalize(s, e) ==
 CloseSink(s, e) ==
   LET s0 == IF /\ ~s.mux[e] /\ s.sink[e] = "open" /\ s.healthy
                /\ (s.task[e].drain \/ s.task[e].res # "ok")     \* not ended by the peer
+               (* ... nor by the keepalive: a tick that finds the peer silent for too long is polled before the drop
+                  notification (select_biased!), and a connection declared dead owes no flush *)
+               /\ s.task[e].res # "keepalive"
                /\ s.snt[e] < s.flushTo[e]
             THEN Flag(s, "C08.FlushOnDrop") ELSE s
   IN IF s.sink[e] = "open"
@@ -727,7 +760,7 @@ WdRun(s, e, gr, gs) ==
          ELSE LET m  == Head(s.wire[Peer(e)])
                   s1 == [s EXCEPT !.wire[Peer(e)] = Tail(@), !.obs.rcv = m]
               IN IF m.op \in {"eos", "err"} THEN Finalize([s1 EXCEPT !.src[e] = "ended"], e)
-                 ELSE WdRun(Process(s1, e, m, TRUE), e, 0, gs)
+                 ELSE WdRun(Process(AutoPong(s1, e, m), e, m, TRUE), e, 0, gs)
     [] OTHER -> s
 
 RECURSIVE DropsAll(_, _)
@@ -752,8 +785,10 @@ TaskPoll(s, e, gr, gs) ==
                          THEN BeginWd([a2 EXCEPT !.outq[e] = Tail(@)], e, FALSE, "ws")
                          ELSE SendOne(a2, e))
               ELSE a2
+        (* 3. schedule_ping_task *)
+        a3k == IF a3.task[e].ph = "run" THEN KaStep(a3, e) ELSE a3
         (* 4. process_dropped_flows_task *)
-        a4 == DropsAll(a3, e)
+        a4 == DropsAll(a3k, e)
     IN {a4}
 
 (* ================================================================== *)
@@ -777,6 +812,8 @@ CutSink(s, e) ==
 SoftCutSink(s, e) ==
   IF s.sink[e] # "open" THEN {}
   ELSE {Obs([Unhealthy(s) EXCEPT !.sink[e] = "softcut"], NoObs)}
+(* time passes *)
+AdvanceTo(s, t) == IF t < s.now THEN {} ELSE {Obs([s EXCEPT !.now = t], NoObs)}
 (* an arbitrary message appears on the link towards e (adversary / raw peer) *)
 Inject(s, e, m) == {Obs([Unhealthy(s) EXCEPT !.wire[Peer(e)] = Append(@, m), !.advn = @ + 1], NoObs)}
 
